@@ -722,6 +722,10 @@ def run(ctx: Ctx):
                     ctx.case(("tie", "TrefethenCC", n, d, k), traces=2)
         # strip maps
         rhos = [1.1] + ([dyadic(rng, 1.05, 2.0, 5)] if (not ctx.quick or n in (3, 8)) else [])
+        # rho far from the default: near rho = 1.1 several terms of the map are at rounding level (tanh(tau pi/2) == 1.0 in
+        # double precision), so a wrong constant in the map or its derivative only shows for rho >~ 2
+        if not ctx.quick or n in (2, 5, 6, 11):
+            rhos += [3.0, dyadic(rng, 2.0, 12.0, 3)]
         for rho in rhos:
             gm = gstrip_mp(m.mpf(rho))
             combos = [("TrefethenStripCC", og.TrefethenStripCC, og.ClenshawCurtis, (n, rho)), ("TrefethenStripGC2", og.TrefethenStripGC2, og.GaussChebyshevType2, (n, rho))]
@@ -749,12 +753,12 @@ def run(ctx: Ctx):
                         eps = m.mpf(10) ** -40
                         d_ref = (gm(sm) - gm(sm - m.sign(sm) * eps)) / (m.sign(sm) * eps)
                         m.mp.dps = 50
-                        dtol = 1e-7
+                        dtol = 1e-6
                     else:
                         d_ref = m.diff(gm, sm, h=m.mpf(10) ** -20 * max(1e-6, 1 - abs(s)))
                         dtol = 1e-8
                     w_ref = d_ref * m.mpf(float(b.weights[k]))
-                    if abs(m.mpf(float(g.points[k])) - x_ref) > 1e-10 or abs(m.mpf(float(g.weights[k])) - w_ref) > dtol * (1 + abs(w_ref)):
+                    if abs(m.mpf(float(g.points[k])) - x_ref) > 1e-10 or abs(m.mpf(float(g.weights[k])) - w_ref) > dtol * abs(w_ref) + m.mpf(10) ** -17:
                         rep.add(n, "subst_trefethen_strip", f"{tname}({args}):{k}", [float(g.points[k]), float(g.weights[k])],
                                 f"{tname}({args}): node/weight {k} = {g.points[k]!r}, {g.weights[k]!r}; strip map and its derivative give {float(x_ref)!r}, {float(w_ref)!r}",
                                 {"rule": tname, "args": args, "k": k, "expected": [float(x_ref), float(w_ref)], "kind": "strip"})
@@ -776,6 +780,52 @@ def run(ctx: Ctx):
         leaf_case("dergstrip", rl(1.25) + " ", s, float(og._dergstrip(1.25, np.array([s]))[0]), strip_tactic(s, "d"), rule="_dergstrip", n=0, k=0, what="leaf", args=f"1.25, {s!r}")
 
     mark('trefethen')
+    # ================================================================== argument forms (implementation only, always run)
+    # an admissible size / parameter that arrives as a NumPy scalar (element of np.arange, result of array arithmetic)
+    # denotes the same rule as the Python number of equal value
+    def same_rule(cname, make, forms, n):
+        try:
+            ref = raw_build(*make(n))
+        except Exception:  # noqa: BLE001 - reported by the plain passes
+            return
+        for label, conv in forms:
+            ctx.case(("argform", cname, label, n))
+            args_txt = label
+            try:
+                gg = raw_build(*make(n, conv))
+                same = len(gg.points) == n and np.array_equal(gg.points, ref.points) and np.array_equal(gg.weights, ref.weights)
+                obs = None if same else [float(x) for x in np.asarray(gg.weights, dtype=float)[:3]]
+                why = "differs from the rule built from the Python numbers of equal value"
+            except Exception as e:  # noqa: BLE001
+                same, obs, why = False, type(e).__name__, f"raises {type(e).__name__}: {str(e)[:100]}"
+            if not same:
+                rep.add(n, f"shape_{cname}_argument_form", f"{cname}({args_txt}):argform", obs,
+                        f"{cname}({args_txt}) {why}; admissible arguments given as NumPy scalars must return the same {n}-point rule",
+                        {"rule": cname, "args": args_txt, "reproduce": f"grid.onedgrid.{cname}({args_txt})"})
+
+    int_forms = [("np.int64", np.int64), ("np.int32", np.int32), ("np.intp", np.intp)]
+    all_classes = SUBST + ORACLE + PLAIN + TREF + STRIP
+    for cname in all_classes:
+        cls = getattr(og, cname, None)
+        if cls is None:
+            continue
+        extra = [prm for nm, prm in inspect.signature(cls.__init__).parameters.items() if nm not in ("self", "npoints")]
+        for n in (7, 11) if cname in SUBST + ["Simpson"] else (6, 7):
+            if cname in ("TrefethenGeneral", "TrefethenStripGeneral"):
+                mk = lambda nn, cv=int, cls=cls: (cls, cv(nn), og.MidPoint)  # noqa: E731
+                forms = [(f"{lbl}({n}), MidPoint", cv) for lbl, cv in int_forms]
+                same_rule(cname, mk, forms, n)
+                continue
+            mk = lambda nn, cv=int, cls=cls: (cls, cv(nn))  # noqa: E731
+            same_rule(cname, mk, [(f"{lbl}({n})", cv) for lbl, cv in int_forms], n)
+            # extra parameter (alpha, delta, h, rho as np.float64; d as np.int64), size as np.int64 as well
+            if len(extra) == 1 and extra[0].default is not inspect.Parameter.empty:
+                dv = extra[0].default
+                val = {"alpha": 0.5, "d": 5}.get(extra[0].name, dv)
+                pconv = np.int64 if isinstance(val, int) and not isinstance(val, bool) else np.float64
+                mk2 = lambda nn, cv=None, cls=cls, val=val, pconv=pconv: (cls, nn, val) if cv is None else (cls, np.int64(nn), pconv(val))  # noqa: E731
+                same_rule(cname, mk2, [(f"np.int64({n}), {pconv.__name__}({val!r})", True)], n)
+    mark('argforms')
     # ================================================================== large-n pass (implementation only, always run)
     # shape at sizes far beyond the tie, and weight = base weight * phi'(node) / step * phi'(t_k) at the outermost nodes on
     # each side and a few interior ones (an end-point special case that swallows interior nodes only shows up for n >~ 700)
@@ -837,7 +887,7 @@ def run(ctx: Ctx):
                         rep.add(n, "subst_trefethen_poly", f"{tname}({args}):large:{k}", [float(g.points[k]), float(g.weights[k])],
                                 f"{tname}({args}): node/weight {k} = {g.points[k]!r}, {g.weights[k]!r}; arcsin-Taylor map of degree {d} gives {float(px)!r}, {float(wexp)!r}",
                                 {"rule": tname, "args": args, "k": k, "expected": [float(px), float(wexp)], "kind": "trefethen-large"})
-        for rho in (1.02, 1.1, 1.4):
+        for rho in (1.02, 1.1, 1.4) + ((5.0, 10.0) if n == 700 else ()):
             gm = gstrip_mp(m.mpf(rho))
             for (tname, tcls), (bname, bcls) in zip((("TrefethenStripCC", og.TrefethenStripCC), ("TrefethenStripGC2", og.TrefethenStripGC2), ("TrefethenStripGeneral", og.TrefethenStripGeneral)), big_bases):
                 b = base_cache[(bname, n)]
